@@ -202,7 +202,7 @@ func (c *Ctx) checkLoopInv(s *State, header *ssa.BasicBlock, when string) {
 		pos = posOf(c.eng.prog, header.Instrs[len(header.Instrs)-1])
 	}
 	for i, t := range c.autoInvariants(s, header) {
-		name := fmt.Sprintf("%s/loop%d:auto%d:%s", fnKey(fr.fn), ord, i+1, when)
+		name := fmt.Sprintf("%s/loop%d:auto%d:%s", fnKey(fr.fn), c.eng.loopLabel(fr.fn, ord), i+1, when)
 		c.oblige(s, "auto-invariant", name, t, pos, "derived induction-variable bound (candidate, checked)", c.props)
 	}
 	cls := c.loopClauses(fr.fn, header)
@@ -220,7 +220,7 @@ func (c *Ctx) checkLoopInv(s *State, header *ssa.BasicBlock, when string) {
 		if label == "" {
 			label = fmt.Sprint(i + 1)
 		}
-		name := fmt.Sprintf("%s/loop%d:inv[%s]:%s", fnKey(fr.fn), ord, label, when)
+		name := fmt.Sprintf("%s/loop%d:inv[%s]:%s", fnKey(fr.fn), c.eng.loopLabel(fr.fn, ord), label, when)
 		props := cl.Props
 		if len(props) == 0 {
 			if fc := c.eng.contracts.funcs[qualFnName(fr.fn)]; fc != nil {
